@@ -782,6 +782,7 @@ func runC14(c *Ctx) {
 			c.Ev.Count("waiters_released", int64(len(res.Records)))
 		}
 		c.Ev.Distinct(cl.Transport, cl.Step, cl.Kind, res.Stale, res.Judged)
+		c.Ev.Sample(map[string]any{"cell": cl.String(), "stale_connections": res.Stale, "exchanges_judged": res.Judged, "records": len(res.Records)})
 		for _, f := range res.Findings {
 			cands = append(cands, cand{res, f})
 		}
